@@ -118,6 +118,8 @@ type netCase struct {
 	// lim: Info[p] = replies of serving peer p, one per round
 	Lim  string       `json:"lim,omitempty"`
 	Info [][]infoSpec `json:"info,omitempty"`
+	// store
+	St []stReq `json:"st,omitempty"`
 }
 
 // ---------------------------------------------------------------- generators
